@@ -414,6 +414,13 @@ func spec_itoa(n int) string { return strconv.Itoa(n) }
 //@   requires c != nil
 //@   ensures result == (c.body == nil || len(spec_written(c.body)) == 0)
 
+//@ func gengoCtx.Defer
+//@   props C06
+//@   requires c != nil
+//@   assigns c.defers
+//@   ensures eq(c.defers, append(old(c.defers), fn))
+//@   note EVERY registration is appended, in order, whatever was registered before: two closures of one function literal are two callbacks (pkgExecute then runs each element of the list once: `loop 4`)
+
 //@ func gengoCtx.IsZero
 //@   props C07
 //@   pure
